@@ -15,6 +15,16 @@ directions, by composing three layers:
   `replyFields` (`write_fields` of the replies), `serverDecode` (an independent strict reader);
 * C11 (`runLoop`, `C11.keepalive_echo`, `C11.teleport_ack`, the closed form `runLoop_spec`).
 
+* the play-state "set compression" packet (protocols ≤ 47; `SrvPkt.setCompression`,
+  `Profile.setCompressionCb`): it switches threshold and compression of BOTH directions at its
+  position in the stream — `serverBytes` frames what follows it with the new threshold, `clientRead`
+  re-evaluates its flag packet by packet, and every reply is framed with the threshold in force
+  when it was WRITTEN (`runT` = `runLoop` instrumented with "packets processed so far", `thrAt`,
+  `thrTags`, `clientWireT`); the reference server is told the flag per frame
+  (`serverDecodeRepliesM`).  Streams without such packets are the one-threshold special case
+  (`quiet_stream_one_threshold`, last clause of `client_wire_is_frames_of_replies`,
+  `server_recovers_replies_one_threshold`).
+
 Everything is quantified over ALL packet lists `pkts : List SrvPkt` (each packet carries all its
 wire data; `inboxOf pkts` is the `PlayEv` list the reactor sees), ALL profiles (the ids and layout
 switches are parameters; only pairwise distinctness of the ids in use is assumed), ALL thresholds,
@@ -32,76 +42,172 @@ parameters are in `Lemmas/PlayWire.lean`.
 namespace PyCraft.C11Wire
 open PyCraft PyCraft.Play PyCraft.PlayWire
 
-/-- (a) The client reads the server's stream back.  Let a server write any well-formed packets
-(one frame each, any threshold/zlib), cut the stream into `send` calls in any way, encrypt it call
-by call (or not: `plainPair`), and let it arrive in ANY segmentation: `read_packet` in a loop —
-C01's reader, then the packet class's `read` selected by the id — hands `_react` exactly the events
-`inboxOf pkts` (keep-alive ids, positions, teleport ids as written; an unknown id as a bare packet
-without data; other known packets by name), in order, nothing lost, merged or split, and then sees
-end-of-stream exactly at a frame boundary: everything was consumed. -/
+/-- (a) The client reads the server's stream back — set-compression packets included.  Let a
+server write any well-formed packets, one frame each, starting under the threshold `thr` login left
+in force and framing everything BEHIND a play-state "set compression" packet with that packet's
+threshold (`serverBytes`; any zlib; `ServerOK`: C01's VarInt guard for every frame under the
+threshold it is framed with); cut the stream into `send` calls in any way, encrypt it call by call
+(or not: `plainPair`), and let it arrive in ANY segmentation: `read_packet` in a loop — C01's reader
+with the CURRENT `compression_enabled` flag, then the packet class's `read` selected by the id, the
+flag switched on by the reactor behind each set-compression packet — hands `_react` exactly the
+events `inboxOf pkts` (keep-alive ids, positions, teleport ids as written; an unknown id as a bare
+packet without data; other known packets, set compression among them, by name), in order, nothing
+lost, merged or split, and then sees end-of-stream exactly at a frame boundary: everything was
+consumed. -/
 theorem client_decodes_server_stream {σ : Type} (cp : CipherPair σ) (s0 : σ) (z : Zlib)
     (thr : Option Int) (P : Profile) (pkts : List SrvPkt) (hP : P.cbDistinct = true)
     (hwf : ∀ p ∈ pkts, p.wf P = true)
-    (hok : ∀ p ∈ pkts, FrameOK z.toZlibOps thr (serverFields P p))
+    (hok : ServerOK z.toZlibOps P thr pkts)
     (sends : List Bytes) (hsends : sends.flatten = serverBytes z.toZlibOps thr P pkts)
     (segs : Segs) (hseg : segs.flatten = (encSends cp.enc s0 sends).2.flatten) :
     clientRead P cp.dec s0 z.toZlibOps thr.isSome segs = (inboxOf pkts, .eof) := by
-  have hr := C01.roundtrip_encrypted cp s0 z thr (pkts.map (serverFields P))
-    (fun q hq => by obtain ⟨p, hp, rfl⟩ := List.mem_map.mp hq; exact hok p hp) sends
-    (by rw [hsends, serverBytes, List.map_map]; rfl) segs hseg
-  unfold clientRead
-  rw [hr]
-  exact decodeEach_server P hP pkts hwf .eof
+  rw [clientRead_spec, hseg, encSends_flatten, (cp.inv s0 _).1, hsends]
+  exact parseClient_server z P hP pkts thr _ hwf hok
+    (by rw [cp.enc.len]; have := serverBytes_length z.toZlibOps P pkts thr; omega)
 
-/-- (a′) The same on a plaintext connection, in the vocabulary of `C01.roundtrip_stream`: any
-segmentation of `serverBytes` is read back as `inboxOf pkts`, then end-of-stream. -/
+/-- (a′) The same on a plaintext connection: any segmentation of `serverBytes` is read back as
+`inboxOf pkts`, then end-of-stream. -/
 theorem client_decodes_plain_stream (z : Zlib) (thr : Option Int) (P : Profile)
     (pkts : List SrvPkt) (hP : P.cbDistinct = true) (hwf : ∀ p ∈ pkts, p.wf P = true)
-    (hok : ∀ p ∈ pkts, FrameOK z.toZlibOps thr (serverFields P p)) (segs : Segs)
+    (hok : ServerOK z.toZlibOps P thr pkts) (segs : Segs)
     (hseg : segs.flatten = serverBytes z.toZlibOps thr P pkts) :
     clientRead P idXform () z.toZlibOps thr.isSome segs = (inboxOf pkts, .eof) := by
-  have hr := C01.roundtrip_stream z thr (pkts.map (serverFields P))
-    (fun q hq => by obtain ⟨p, hp, rfl⟩ := List.mem_map.mp hq; exact hok p hp) segs
-    (by rw [hseg, serverBytes, List.map_map]; rfl)
-  have hr' : readAllEnc idXform () z.toZlibOps thr.isSome segs =
-      (pkts.map (serverFields P), .eof) := hr
-  unfold clientRead
-  rw [hr']
-  exact decodeEach_server P hP pkts hwf .eof
+  rw [clientRead_spec]
+  show parseClient P z.toZlibOps (segs.flatten.length + 1) thr.isSome segs.flatten = _
+  rw [hseg]
+  exact parseClient_server z P hP pkts thr _ hwf hok
+    (by have := serverBytes_length z.toZlibOps P pkts thr; omega)
+
+/-- (a″) A stream WITHOUT set-compression packets is framed with the one threshold `thr` throughout
+(the vocabulary of `C01.roundtrip_stream`), and its VarInt guard is the guard of every packet under
+`thr`. -/
+theorem quiet_stream_one_threshold (z : ZlibOps) (thr : Option Int) (P : Profile)
+    (pkts : List SrvPkt) (hq : ∀ p ∈ pkts, p.isSetCompression = false) :
+    serverBytes z thr P pkts = (pkts.map fun p => packetFrame z thr (serverFields P p)).flatten ∧
+    (ServerOK z P thr pkts ↔ ∀ p ∈ pkts, FrameOK z thr (serverFields P p)) ∧
+    ∀ n, thrAt thr pkts n = thr :=
+  ⟨by rw [serverBytes, serverFrames_quiet z thr P pkts hq], serverOK_quiet z thr P pkts hq,
+    thrAt_quiet thr pkts hq⟩
 
 /-- (b) What the client writes.  For the run of the networking loop on the decoded inbox (any caps
-with `capR ≥ 1`, peer open or not): the bytes handed to the socket are the concatenation of WHOLE
-frames — one per reply on `Result.wire`, `frame`d `VarInt(id) ++ write_fields` — on a plaintext
-connection as they are, otherwise as ONE cipher stream over them however the `send` calls chunk it;
-the replies are a prefix of — and, unless the peer has closed at a disconnect, exactly — the replies
-due (`C11.wire_order`), which are the replies to the packets BEFORE the first server disconnect:
-nothing is written for anything behind it. -/
+with `capR ≥ 1`, peer open or not) the instrumented run `runT` terminates too and tells, for every
+reply on `Result.wire`, in order, how many packets of the server's stream the client had processed
+when `_write_packet` wrote it: a number that never decreases along the wire and never exceeds the
+length of the stream.  The threshold that reply is framed with is the one in force at that point of
+the stream (`thrTags`: `thr`, or the threshold of the last set-compression packet processed — so a
+reply written after the client has processed a set-compression packet uses it, whichever packet it
+answers).  The bytes handed to the socket are the concatenation of WHOLE frames — one per reply,
+`frame`d `VarInt(id) ++ write_fields` under its own threshold — on a plaintext connection as they
+are, otherwise as ONE cipher stream over them however the `send` calls chunk it; the replies are a
+prefix of — and, unless the peer has closed at a disconnect, exactly — the replies due
+(`C11.wire_order`), which are the replies to the packets BEFORE the first server disconnect: nothing
+is written for anything behind it.  Without set-compression packets every reply is framed with `thr`
+and the chunks are those of the one-threshold writer `clientWire`. -/
 theorem client_wire_is_frames_of_replies {τ : Type} (enc : StreamXform τ) (t0 : τ) (z : ZlibOps)
     (thr : Option Int) (P : Profile) (pkts : List SrvPkt) (po : Bool) (capW capR : Nat)
     (hR : 1 ≤ capR) :
-    ∃ r, runLoop P.newer107 po capW capR (inboxOf pkts) = some r ∧
-      (clientWire z thr P idXform () r.wire).flatten = (r.wire.map (replyFrame z thr P)).flatten ∧
-      (clientWire z thr P enc t0 r.wire).flatten =
-        (enc.update t0 (r.wire.map (replyFrame z thr P)).flatten).2 ∧
+    ∃ r tw, runLoop P.newer107 po capW capR (inboxOf pkts) = some r ∧
+      runT P.newer107 po capW capR (inboxOf pkts) = some tw ∧ tw.map (·.1) = r.wire ∧
+      (∀ x ∈ tw, x.2 ≤ pkts.length) ∧ (tw.Pairwise fun a b => a.2 ≤ b.2) ∧
+      (clientWireT z P idXform () (thrTags thr pkts tw)).flatten =
+        ((thrTags thr pkts tw).map (replyFrameT z P)).flatten ∧
+      (clientWireT z P enc t0 (thrTags thr pkts tw)).flatten =
+        (enc.update t0 ((thrTags thr pkts tw).map (replyFrameT z P)).flatten).2 ∧
       r.wire <+: due P pkts ∧
       ((po = true ∨ hasDiscP pkts = false) → r.wire = due P pkts) ∧
       (due P pkts = (beforeDisc (inboxOf pkts)).flatMap (replyTo P.newer107)) ∧
       (∀ pre j post, pkts = pre ++ SrvPkt.disconnect j :: post →
         (∀ p ∈ pre, p.isDisconnect = false) →
-        due P pkts = pre.flatMap fun p => replyTo P.newer107 p.ev) := by
+        due P pkts = pre.flatMap fun p => replyTo P.newer107 p.ev) ∧
+      ((∀ p ∈ pkts, p.isSetCompression = false) →
+        thrTags thr pkts tw = r.wire.map (fun q => (q, thr)) ∧
+        clientWireT z P enc t0 (thrTags thr pkts tw) = clientWire z thr P enc t0 r.wire) := by
   obtain ⟨r, h, hp, he, -⟩ := run_facts P pkts po capW capR hR
-  refine ⟨r, h, wireWith_flatten z thr idXform () _ _, wireWith_flatten z thr enc t0 _ _, hp, he,
-    (due_eq P pkts).symm, ?_⟩
-  intro pre j post hpk hpre
-  rw [due, hpk, beforeDiscP_append_disc pre post j hpre]
+  obtain ⟨tw, ht, hfst, hle, hmono⟩ := runT_spec P.newer107 po capW capR (inboxOf pkts) r h
+  have hlen : (inboxOf pkts).length = pkts.length := by simp [inboxOf]
+  refine ⟨r, tw, h, ht, hfst, fun x hx => hlen ▸ hle x hx, hmono,
+    wireWithT_flatten z idXform () _ _, wireWithT_flatten z enc t0 _ _, hp, he,
+    (due_eq P pkts).symm, ?_, fun hq => ?_⟩
+  · intro pre j post hpk hpre
+    rw [due, hpk, beforeDiscP_append_disc pre post j hpre]
+  · have e := thrTags_quiet thr pkts hq tw
+    rw [hfst] at e
+    exact ⟨e, by rw [e]; exact wireWithT_const z thr enc t0 _ _⟩
 
-/-- (c) The server recovers the replies.  Let the client's chunks (threshold/zlib/cipher as
-above) arrive in ANY segmentation at an independent reference server — C01's reader through the
-matching decryptor, then a STRICT decoder per packet (`serverDecode`: keep-alive in this profile's
-width, the acknowledgement this profile expects, every payload consumed exactly): it recovers
-exactly the reply list `Result.wire` — which is the list of replies due unless the peer has closed —
-and then end-of-stream.  Under compression and encryption too (`cp`, `thr` arbitrary). -/
+/-- (b′) WHEN a reply is written: never before the packet it answers has been processed.  The reply at
+position `j` of `Result.wire` is the `j`-th reply due; the number `n` of packets processed when it was
+written (its tag) is large enough for the first `n` packets to cause MORE than `j` replies — the
+packet it answers is among them.  Hence a reply that is not an answer to one of the first `i` packets
+is written with more than `i` packets processed (`i < n`): a set-compression packet among the first
+`i` packets has been processed by then, and the reply is framed with its threshold or with that of a
+later one, never with an earlier threshold.  (The converse does not hold: a reply may be framed with a
+threshold announced AFTER the packet it answers — `demo47sc` with the real caps.) -/
+theorem reply_written_after_its_packet (P : Profile) (pkts : List SrvPkt) (po : Bool)
+    (capW capR : Nat) (hR : 1 ≤ capR) :
+    ∃ r tw, runLoop P.newer107 po capW capR (inboxOf pkts) = some r ∧
+      runT P.newer107 po capW capR (inboxOf pkts) = some tw ∧ tw.map (·.1) = r.wire ∧
+      ∀ (j : Nat) (hj : j < tw.length),
+        j < ((pkts.take tw[j].2).flatMap fun p => replyTo P.newer107 p.ev).length ∧
+        ∀ i, ((pkts.take i).flatMap fun p => replyTo P.newer107 p.ev).length ≤ j → i < tw[j].2 := by
+  obtain ⟨r, h, -⟩ := run_facts P pkts po capW capR hR
+  obtain ⟨tw, ht, hfst, -, -⟩ := runT_spec P.newer107 po capW capR (inboxOf pkts) r h
+  refine ⟨r, tw, h, ht, hfst, fun j hj => ?_⟩
+  have ha := runT_after P.newer107 po capW capR (inboxOf pkts) tw ht j hj
+  refine ⟨by rw [← repliesUpTo_inboxOf]; exact ha, fun i hi => ?_⟩
+  rw [← repliesUpTo_inboxOf] at hi
+  apply Nat.lt_of_not_le
+  intro hle
+  have := repliesUpTo_mono P.newer107 (inboxOf pkts) hle
+  omega
+
+/-- (c) The server recovers the replies.  Let the client's chunks (zlib/cipher as above, every reply
+framed with the threshold in force when it was written, `thrTags`) arrive in ANY segmentation at an
+independent reference server — C01's reader through the matching decryptor, told frame by frame
+whether a threshold was in force (it is the server that announced the thresholds), then a STRICT
+decoder per packet (`serverDecode`: keep-alive in this profile's width, the acknowledgement this
+profile expects, every payload consumed exactly): it recovers exactly the reply list `Result.wire` —
+which is the list of replies due unless the peer has closed — and then end-of-stream.  Under
+compression and encryption too (`cp`, `thr`, the thresholds of the set-compression packets
+arbitrary).  `hok`: every reply due passes the VarInt guard under every threshold that is in force
+at some point of the stream. -/
 theorem server_recovers_replies {τ : Type} (cp : CipherPair τ) (t0 : τ) (z : Zlib)
+    (thr : Option Int) (P : Profile) (pkts : List SrvPkt) (po : Bool) (capW capR : Nat)
+    (hR : 1 ≤ capR) (hSb : P.sbDistinct = true) (hwf : ∀ p ∈ pkts, p.wf P = true)
+    (hok : ∀ q ∈ due P pkts, ∀ n ≤ pkts.length,
+      FrameOK z.toZlibOps (thrAt thr pkts n) (replyFields P q)) :
+    ∃ r tw, runLoop P.newer107 po capW capR (inboxOf pkts) = some r ∧
+      runT P.newer107 po capW capR (inboxOf pkts) = some tw ∧ tw.map (·.1) = r.wire ∧
+      (∀ (last : Bool) (segs : Segs),
+        segs.flatten = (clientWireT z.toZlibOps P cp.enc t0 (thrTags thr pkts tw)).flatten →
+        serverDecodeRepliesM P cp.dec t0 z.toZlibOps ((thrTags thr pkts tw).map (·.2.isSome)) last
+          segs = (r.wire, .eof)) ∧
+      ((po = true ∨ hasDiscP pkts = false) → r.wire = due P pkts) := by
+  obtain ⟨r, h, hp, he, -⟩ := run_facts P pkts po capW capR hR
+  obtain ⟨tw, ht, hfst, hle, -⟩ := runT_spec P.newer107 po capW capR (inboxOf pkts) r h
+  have hlen : (inboxOf pkts).length = pkts.length := by simp [inboxOf]
+  refine ⟨r, tw, h, ht, hfst, fun last segs hseg => ?_, he⟩
+  have hmem : ∀ qt ∈ thrTags thr pkts tw,
+      qt.1 ∈ due P pkts ∧ ∃ n ≤ pkts.length, qt.2 = thrAt thr pkts n := by
+    intro qt hq
+    obtain ⟨x, hx, rfl⟩ := List.mem_map.mp hq
+    refine ⟨hp.subset ?_, x.2, hlen ▸ hle x hx, rfl⟩
+    rw [← hfst]; exact List.mem_map.mpr ⟨x, hx, rfl⟩
+  have hrec := serverDecodeRepliesM_wire cp t0 z P hSb (thrTags thr pkts tw)
+    (fun qt hq => due_wf P pkts hwf qt.1 (hmem qt hq).1)
+    (fun qt hq => by
+      obtain ⟨hd, n, hn, e⟩ := hmem qt hq
+      rw [e]; exact hok qt.1 hd n hn) last segs hseg
+  rw [hrec]
+  congr 1
+  rw [← hfst, thrTags, List.map_map]
+  rfl
+
+/-- (c′) One threshold.  The one-threshold writer `clientWire z thr` (every reply framed with `thr`)
+is read back by the one-flag reference server `serverDecodeReplies … thr.isSome` — the vocabulary of
+`Model/SessionWire.lean`; and (last clause) `clientWire z thr` IS what the client hands to the socket
+whenever the server's stream contains no set-compression packet: then every tag of `runT` stands for
+the threshold `thr`. -/
+theorem server_recovers_replies_one_threshold {τ : Type} (cp : CipherPair τ) (t0 : τ) (z : Zlib)
     (thr : Option Int) (P : Profile) (pkts : List SrvPkt) (po : Bool) (capW capR : Nat)
     (hR : 1 ≤ capR) (hSb : P.sbDistinct = true) (hwf : ∀ p ∈ pkts, p.wf P = true)
     (hok : ∀ q ∈ due P pkts, FrameOK z.toZlibOps thr (replyFields P q)) :
@@ -109,9 +215,14 @@ theorem server_recovers_replies {τ : Type} (cp : CipherPair τ) (t0 : τ) (z : 
       (∀ segs : Segs,
         segs.flatten = (clientWire z.toZlibOps thr P cp.enc t0 r.wire).flatten →
         serverDecodeReplies P cp.dec t0 z.toZlibOps thr.isSome segs = (r.wire, .eof)) ∧
-      ((po = true ∨ hasDiscP pkts = false) → r.wire = due P pkts) := by
-  obtain ⟨r, h, hp, he, -⟩ := run_facts P pkts po capW capR hR
-  refine ⟨r, h, fun segs hseg => ?_, he⟩
+      ((po = true ∨ hasDiscP pkts = false) → r.wire = due P pkts) ∧
+      ((∀ p ∈ pkts, p.isSetCompression = false) →
+        ∃ tw, runT P.newer107 po capW capR (inboxOf pkts) = some tw ∧
+          clientWireT z.toZlibOps P cp.enc t0 (thrTags thr pkts tw) =
+            clientWire z.toZlibOps thr P cp.enc t0 r.wire) := by
+  obtain ⟨r, tw, h, ht, -, -, -, -, -, hp, he, -, -, hquiet⟩ :=
+    client_wire_is_frames_of_replies cp.enc t0 z.toZlibOps thr P pkts po capW capR hR
+  refine ⟨r, h, fun segs hseg => ?_, he, fun hq => ⟨tw, ht, (hquiet hq).2⟩⟩
   have hsub : ∀ q ∈ r.wire, q ∈ due P pkts := fun q hq => hp.subset hq
   have hr := C01.roundtrip_encrypted cp t0 z thr (r.wire.map (replyFields P))
     (fun p hp' => by obtain ⟨q, hq, rfl⟩ := List.mem_map.mp hp'; exact hok q (hsub q hq))
@@ -121,31 +232,36 @@ theorem server_recovers_replies {τ : Type} (cp : CipherPair τ) (t0 : τ) (z : 
   rw [hr]
   exact decodeEach_replies P hSb r.wire (fun q hq => due_wf P pkts hwf q (hsub q hq)) .eof
 
-/-- (a)+(b)+(c) end to end.  Server bytes in (any segmentation, cipher `cpS`), the client reads
-them, runs the loop, writes (cipher `cpC`); the reference server reading the client's bytes in any
+/-- (a)+(b)+(c) end to end.  Server bytes in (any segmentation, cipher `cpS`, thresholds changing at
+the set-compression packets), the client reads them, runs the loop, writes (cipher `cpC`, each reply
+under the threshold in force when written); the reference server reading the client's bytes in any
 segmentation recovers exactly the replies due to the packets before the first disconnect. -/
 theorem session_end_to_end {σ τ : Type} (cpS : CipherPair σ) (s0 : σ) (cpC : CipherPair τ) (t0 : τ)
     (z : Zlib) (thr : Option Int) (P : Profile) (pkts : List SrvPkt) (capW capR : Nat)
     (hR : 1 ≤ capR) (hP : P.cbDistinct = true) (hSb : P.sbDistinct = true)
     (hwf : ∀ p ∈ pkts, p.wf P = true)
-    (hokS : ∀ p ∈ pkts, FrameOK z.toZlibOps thr (serverFields P p))
-    (hokC : ∀ q ∈ due P pkts, FrameOK z.toZlibOps thr (replyFields P q))
+    (hokS : ServerOK z.toZlibOps P thr pkts)
+    (hokC : ∀ q ∈ due P pkts, ∀ n ≤ pkts.length,
+      FrameOK z.toZlibOps (thrAt thr pkts n) (replyFields P q))
     (sends : List Bytes) (hsends : sends.flatten = serverBytes z.toZlibOps thr P pkts)
     (segsIn : Segs) (hin : segsIn.flatten = (encSends cpS.enc s0 sends).2.flatten) :
-    ∃ inbox r, clientRead P cpS.dec s0 z.toZlibOps thr.isSome segsIn = (inbox, .eof) ∧
+    ∃ inbox r tw, clientRead P cpS.dec s0 z.toZlibOps thr.isSome segsIn = (inbox, .eof) ∧
       runLoop P.newer107 true capW capR inbox = some r ∧
+      runT P.newer107 true capW capR inbox = some tw ∧ tw.map (·.1) = r.wire ∧
       r.closed = hasDiscP pkts ∧
-      ∀ segsOut : Segs,
-        segsOut.flatten = (clientWire z.toZlibOps thr P cpC.enc t0 r.wire).flatten →
-        serverDecodeReplies P cpC.dec t0 z.toZlibOps thr.isSome segsOut = (due P pkts, .eof) := by
+      ∀ (last : Bool) (segsOut : Segs),
+        segsOut.flatten = (clientWireT z.toZlibOps P cpC.enc t0 (thrTags thr pkts tw)).flatten →
+        serverDecodeRepliesM P cpC.dec t0 z.toZlibOps ((thrTags thr pkts tw).map (·.2.isSome)) last
+          segsOut = (due P pkts, .eof) := by
   have ha := client_decodes_server_stream cpS s0 z thr P pkts hP hwf hokS sends hsends segsIn hin
-  obtain ⟨r, h, hrec, he⟩ :=
+  obtain ⟨r, tw, h, ht, hfst, hrec, he⟩ :=
     server_recovers_replies cpC t0 z thr P pkts true capW capR hR hSb hwf hokC
   obtain ⟨r', h', -, -, hcl⟩ := run_facts P pkts true capW capR hR
   have hrr : r' = r := Option.some.inj (h'.symm.trans h)
-  refine ⟨inboxOf pkts, r, ha, h, by rw [← hrr]; exact hcl, fun segsOut hout => ?_⟩
+  refine ⟨inboxOf pkts, r, tw, ha, h, ht, hfst, by rw [← hrr]; exact hcl,
+    fun last segsOut hout => ?_⟩
   rw [← he (Or.inl rfl)]
-  exact hrec segsOut hout
+  exact hrec last segsOut hout
 
 /-- (d) The keep-alive echo is byte-transparent, for both id widths.
 Packet level, for ANY payload bytes `raw` (whatever server wrote them): if `read_packet` decodes
@@ -304,7 +420,9 @@ example : p757.cbDistinct = true ∧ p757.sbDistinct = true ∧ p47.cbDistinct =
 /-- The demo packets are well-formed and pass the VarInt guard, compressed or not. -/
 example : (∀ p ∈ demo757, p.wf p757 = true) ∧ (∀ p ∈ demo47, p.wf p47 = true) := by
   decide +kernel
-example : (∀ p ∈ demo757, FrameOK Zlib.ident.toZlibOps demoThr (serverFields p757 p)) ∧
+example : ServerOK Zlib.ident.toZlibOps p757 demoThr demo757 ∧
+    ServerOK Zlib.ident.toZlibOps p47 none demo47 ∧
+    (∀ p ∈ demo757, FrameOK Zlib.ident.toZlibOps demoThr (serverFields p757 p)) ∧
     (∀ p ∈ demo47, FrameOK Zlib.ident.toZlibOps none (serverFields p47 p)) ∧
     (∀ q ∈ due p757 demo757, FrameOK Zlib.ident.toZlibOps demoThr (replyFields p757 q)) ∧
     (∀ q ∈ due p47 demo47, FrameOK Zlib.ident.toZlibOps demoThr (replyFields p47 q)) := by
@@ -358,16 +476,102 @@ example : hexOfBytes (clientWire Zlib.ident.toZlibOps none p47 idXform ()
     "020002" := by decide +kernel
 
 /-- (c) instantiated: the hypotheses are satisfiable (protocol 47, CFB8, threshold 20, real caps),
-and the conclusion for a byte-by-byte arrival. -/
-example : ∃ r, runLoop false true 300 50 (inboxOf demo47) = some r ∧
-    (∀ segs : Segs,
-      segs.flatten = (clientWire Zlib.ident.toZlibOps demoThr p47 (cfb8EncX toyE) [1, 2, 3]
-        r.wire).flatten →
-      serverDecodeReplies p47 (cfb8DecX toyE) [1, 2, 3] Zlib.ident.toZlibOps true segs =
-        (r.wire, .eof)) ∧
+and the conclusion for every arrival. -/
+example : ∃ r tw, runLoop p47.newer107 true 300 50 (inboxOf demo47) = some r ∧
+    runT p47.newer107 true 300 50 (inboxOf demo47) = some tw ∧ tw.map (·.1) = r.wire ∧
+    (∀ (last : Bool) (segs : Segs),
+      segs.flatten = (clientWireT Zlib.ident.toZlibOps p47 (cfb8Pair toyE).enc [1, 2, 3]
+        (thrTags demoThr demo47 tw)).flatten →
+      serverDecodeRepliesM p47 (cfb8Pair toyE).dec [1, 2, 3] Zlib.ident.toZlibOps
+        ((thrTags demoThr demo47 tw).map (·.2.isSome)) last segs = (r.wire, .eof)) ∧
     ((true = true ∨ hasDiscP demo47 = false) → r.wire = due p47 demo47) :=
   server_recovers_replies (cfb8Pair toyE) [1, 2, 3] Zlib.ident demoThr p47 demo47 true 300 50
     (by decide) (by decide) (by decide +kernel) (by decide +kernel)
+
+/-! #### set compression in the play state (protocol 47) -/
+
+/-- The stream `demo47sc` — keep-alive 1, SET COMPRESSION 20, position-and-look, keep-alive 2, SET
+COMPRESSION 1000, keep-alive 3, disconnect — from "no compression": it is well-formed, passes the
+guard, and its bytes are `02 00 01` (no data-length field yet), `02 46 14` (the set-compression packet
+itself still in the old framing), then `23 22 08 …` (the position-and-look, 34 bytes > 20:
+compressed-framed, data length 0x22), `03 00 00 02` (data length 0), `04 00 46 e8 07` (threshold
+1000), `03 00 00 03`, `05 00 40 02 7b 7d`. -/
+example : (∀ p ∈ demo47sc, p.wf p47 = true) ∧ ServerOK Zlib.ident.toZlibOps p47 none demo47sc ∧
+    hexOfBytes (serverBytes Zlib.ident.toZlibOps none p47 demo47sc) =
+      "020001" ++ "024614" ++
+      "23220840240000000000004050000000000000c00800000000000042b400003f80000000" ++
+      "03000002" ++ "040046e807" ++ "03000003" ++ "050040027b7d" ∧
+    (List.range 8).map (thrAt none demo47sc) =
+      [none, none, some 20, some 20, some 20, some 1000, some 1000, some 1000] := by
+  decide +kernel
+
+/-- (a) instantiated on it, byte by byte arrival, no cipher: the reader switches its flag behind the
+first set-compression packet (had it not, the fourth frame's `00` would be taken for the packet id)
+and hands the reactor the seven events. -/
+example : clientRead p47 idXform () Zlib.ident.toZlibOps false
+      ((serverBytes Zlib.ident.toZlibOps none p47 demo47sc).map fun b => [b]) =
+    ([.keepAlive 1, .other "set compression",
+      .posLook 0x4024000000000000 0x4050000000000000 0xC008000000000000 0x42B40000 0x3F800000 0 0,
+      .keepAlive 2, .other "set compression", .keepAlive 3, .disconnect], .eof) :=
+  client_decodes_plain_stream Zlib.ident none p47 demo47sc (by decide) (by decide +kernel)
+    (by decide +kernel) ((serverBytes Zlib.ident.toZlibOps none p47 demo47sc).map fun b => [b])
+    (by induction serverBytes Zlib.ident.toZlibOps none p47 demo47sc <;> simp_all)
+
+/-- (b) instantiated: WHEN a reply is written decides its framing, not which packet it answers.  With
+the real caps (300/50) all seven packets are read in one batch and the four replies are flushed by
+`disconnect()` — after BOTH set-compression packets: all framed under threshold 1000, the reply to
+keep-alive 1 (sent before any set compression) included.  With `capR = 2` the loop alternates:
+keep-alive 1 is answered after 2 packets (threshold 20, data length 0), the position echo after 3
+(34 bytes > 20: compressed-framed, `23 22 06 …`), keep-alive 2 after 4, keep-alive 3 in the final
+flush (threshold 1000). -/
+example : demoRunT p47 300 50 demo47sc =
+      [(.keepAlive 1, 7),
+       (.positionEcho 0x4024000000000000 0x4050000000000000 0xC008000000000000 0x42B40000 0x3F800000
+          true, 7), (.keepAlive 2, 7), (.keepAlive 3, 7)] ∧
+    (demoRunT p47 300 2 demo47sc).map (·.2) = [2, 3, 4, 7] ∧
+    (thrTags none demo47sc (demoRunT p47 300 2 demo47sc)).map (·.2) =
+      [some 20, some 20, some 20, some 1000] ∧
+    hexOfBytes (clientWireT Zlib.ident.toZlibOps p47 idXform ()
+        (thrTags none demo47sc (demoRunT p47 300 2 demo47sc))).flatten =
+      "03000001" ++ "23220640240000000000004050000000000000c00800000000000042b400003f80000001" ++
+      "03000002" ++ "03000003" ∧
+    hexOfBytes (clientWireT Zlib.ident.toZlibOps p47 idXform ()
+        (thrTags none demo47sc (demoRunT p47 300 50 demo47sc))).flatten =
+      "03000001" ++ "23000640240000000000004050000000000000c00800000000000042b400003f80000001" ++
+      "03000002" ++ "03000003" := by decide +kernel
+
+/-- (b′) instantiated (`capR = 2`): the position echo is reply 1; the first two packets (keep-alive
+1, set compression 20) cause only one reply, so it is written with more than two packets processed —
+here three — and therefore under threshold 20, never uncompressed-framed. -/
+example : ((demo47sc.take 2).flatMap fun p => replyTo p47.newer107 p.ev).length = 1 ∧
+    ((demoRunT p47 300 2 demo47sc).map (·.2))[1]? = some 3 ∧
+    thrAt none demo47sc 2 = some 20 ∧ thrAt none demo47sc 3 = some 20 := by decide +kernel
+
+/-- (c)/(end to end) instantiated on it (CFB8 both ways, `capR = 2`): the hypotheses are satisfiable,
+and the reference server, told the four flags, recovers the four replies. -/
+example : ∃ inbox r tw,
+    clientRead p47 (cfb8Pair toyE).dec [9, 9] Zlib.ident.toZlibOps false
+      [(encSends (cfb8Pair toyE).enc [9, 9] [serverBytes Zlib.ident.toZlibOps none p47 demo47sc]).2.flatten]
+      = (inbox, .eof) ∧
+    runLoop p47.newer107 true 300 2 inbox = some r ∧
+    runT p47.newer107 true 300 2 inbox = some tw ∧ tw.map (·.1) = r.wire ∧
+    r.closed = hasDiscP demo47sc ∧
+    ∀ (last : Bool) (segsOut : Segs),
+      segsOut.flatten = (clientWireT Zlib.ident.toZlibOps p47 (cfb8Pair toyE).enc [1, 2, 3]
+        (thrTags none demo47sc tw)).flatten →
+      serverDecodeRepliesM p47 (cfb8Pair toyE).dec [1, 2, 3] Zlib.ident.toZlibOps
+        ((thrTags none demo47sc tw).map (·.2.isSome)) last segsOut = (due p47 demo47sc, .eof) :=
+  session_end_to_end (cfb8Pair toyE) [9, 9] (cfb8Pair toyE) [1, 2, 3] Zlib.ident none p47 demo47sc
+    300 2 (by decide) (by decide) (by decide) (by decide +kernel) (by decide +kernel)
+    (by decide +kernel) [serverBytes Zlib.ident.toZlibOps none p47 demo47sc] (by simp) _ (by simp)
+
+/-- A reader that does NOT switch (the model before this revision: one flag for the whole stream)
+misreads the same bytes: with the flag off throughout it takes the data-length octet of the fourth
+frame for a packet id. -/
+example : decodeEach (clientDecode p47)
+      (readAll Zlib.ident.toZlibOps false [serverBytes Zlib.ident.toZlibOps none p47 demo47sc]).1
+      (readAll Zlib.ident.toZlibOps false [serverBytes Zlib.ident.toZlibOps none p47 demo47sc]).2 ≠
+    (inboxOf demo47sc, .eof) := by decide +kernel
 
 /-- (d)/(e) packet level, on concrete raw payloads: a Long keep-alive with trailing garbage, a
 non-canonical VarInt keep-alive (`80 00` = 0, echoed as `00`: same number, canonical bytes), and a
